@@ -62,7 +62,7 @@ func VerifC03RoundTripAbs() {
 func VerifC03RoundTripRel() {
 	bi := vnd.Pick(len(bases))
 	ri := vnd.Pick(len(refCtx))
-	w := vnd.Str(vnd.Len(vnd.Param("C03.KRel", 2, 3)))
+	w := vnd.Str(vnd.Len(vnd.Param("C03.KRel", 1, 3)))
 	u, err := ParseRef(bases[bi], refCtx[ri].pre+w+refCtx[ri].suf)
 	if err != nil {
 		return
@@ -79,17 +79,16 @@ func firstSegmentIsPipeDrive(u *Url) bool {
 	return len(s) == 2 && ((s[0] >= 'a' && s[0] <= 'z') || (s[0] >= 'A' && s[0] <= 'Z')) && s[1] == '|'
 }
 
-// VerifC03RoundTripOps: round trip after setter histories. The only exempt state is the
+// roundTripOps: round trip after setter histories. The only exempt state is the
 // standard's own: scheme file, first segment `X|`, reached through a protocol-setter
 // call that switched the scheme to file.
-func VerifC03RoundTripOps() {
-	si := vnd.Pick(len(startURLs))
+func roundTripOps(depth, k, nstarts int) {
+	si := vnd.Pick(nstarts)
 	u, err := Parse(startURLs[si])
 	if err != nil {
 		return
 	}
-	depth := 1 + vnd.Pick(vnd.Param("C03.Depth", 2, 3))
-	sw := history(u, depth, vnd.Param("C03.KOps", 2, 3))
+	sw := history(u, depth, k)
 	if sw && u.scheme == "file" && firstSegmentIsPipeDrive(u) {
 		vnd.Cover("standard-exception-state", true)
 		return
@@ -97,8 +96,19 @@ func VerifC03RoundTripOps() {
 	verifCheckRoundTrip(u)
 }
 
+// VerifC03RoundTripOps1: one setter call with a symbolic window.
+func VerifC03RoundTripOps1() { roundTripOps(1, vnd.Param("C03.KOps1", 2, 3), len(startURLs)) }
+
+// VerifC03RoundTripOps2: two setter calls, the first from the value lists, the second symbolic.
+func VerifC03RoundTripOps2() { roundTripOps(2, vnd.Param("C03.KOps2", 1, 2), vnd.Param("C03.Starts2", 6, 16)) }
+
+// VerifC03RoundTripOps3: three setter calls (thorough tier).
+func VerifC03RoundTripOps3() { roundTripOps(3, vnd.Param("C03.KOps3", 0, 1), vnd.Param("C03.Starts3", 6, 16)) }
+
 func init() {
 	verifHarnesses["VerifC03RoundTripAbs"] = VerifC03RoundTripAbs
 	verifHarnesses["VerifC03RoundTripRel"] = VerifC03RoundTripRel
-	verifHarnesses["VerifC03RoundTripOps"] = VerifC03RoundTripOps
+	verifHarnesses["VerifC03RoundTripOps1"] = VerifC03RoundTripOps1
+	verifHarnesses["VerifC03RoundTripOps2"] = VerifC03RoundTripOps2
+	verifHarnesses["VerifC03RoundTripOps3"] = VerifC03RoundTripOps3
 }
